@@ -159,25 +159,28 @@ open Req.Retry
 theorem consume_idem (s : FileSrc) : s.consume.consume = s.consume := by
   cases s <;> rfl
 
-def NoStream (f : FileUp) : Prop := ∀ c b, f.src ≠ .stream c b
+def NoStream (f : FileUp) : Prop := (∀ c b, f.src ≠ .stream c b) ∧ (∀ c b, f.src ≠ .closer c b)
 
 theorem filePart_consume (c : ClientCfg) (f : FileUp) (h : NoStream f) :
     filePart R c { f with src := f.src.consume } = filePart R c f := by
   obtain ⟨p, n, ct, src⟩ := f
   cases src with
-  | stream cc b => exact absurd rfl (h cc b)
+  | stream cc b => exact absurd rfl (h.1 cc b)
+  | closer cc b => exact absurd rfl (h.2 cc b)
   | bytes cc => rfl
   | path cc => rfl
   | seeker cc b => simp [filePart, fileContent, FileSrc.consume, R, Variant.repaired]
 
 theorem noStream_of_replayable (st : ReqState) (h : unreplayable R st = false) :
     ∀ f ∈ st.files, NoStream f := by
-  intro f hf c b hsrc
+  intro f hf
   simp only [unreplayable, R, Variant.repaired, Bool.true_and, Bool.or_eq_false_iff] at h
-  have := h.2
-  rw [List.any_eq_false] at this
-  have := this f hf
-  simp [hsrc] at this
+  have h2 := h.2
+  rw [List.any_eq_false] at h2
+  have h3 := h2 f hf
+  constructor
+  · intro c b hsrc; simp [hsrc] at h3
+  · intro c b hsrc; simp [hsrc] at h3
 
 theorem notReader_of_replayable (st : ReqState) (h : unreplayable R st = false) :
     ∀ b c, st.body ≠ .reader b c := by
